@@ -109,6 +109,7 @@ def events_for(profile, full_values=False):
     ev += [("beep", True), ("beep", False), ("apply",), ("apply-silent",), ("refresh",), ("clean",)]
     if angles or r != "none" or b != "none" or ieco:
         ev.append(("refresh-push",))
+        ev.append(("refresh-extra",))
     return ev
 
 
@@ -276,9 +277,15 @@ class Run:
                                 if val != expect[pid]:
                                     self.bad(f"property {pid:#06x} value encoding", f"sent {val.hex()} expected {expect[pid].hex()}")
                 self.pending.clear()
-            elif kind in ("refresh", "refresh-push"):
+            elif kind in ("refresh", "refresh-push", "refresh-extra"):
                 self.push = kind == "refresh-push"
+                if kind == "refresh-extra":
+                    # the unit volunteers properties nobody asked for (indoor humidity, fresh air, anion) inside its reply
+                    self.extra_n = getattr(self, "extra_n", 0) + 1
+                    xid, xval = [(0x0015, b"\x2d"), (0x004B, b"\x01\x28\x14"), (0x021E, b"\x01")][self.extra_n % 3]
+                    self.model.extra_in_replies = (self.extra_n % 2, xid, xval)
                 await ac.refresh()
+                self.model.extra_in_replies = None
                 self.push = False
                 self._check_readback(kind)
 
